@@ -151,16 +151,19 @@ ChkPost(e) ==
 ---------------------------------------------------------------------------
 Zero4 == <<0, 0, 0, 0>>
 NearBox(a, b) == \A k \in 1..4 : Near(a[k], b[k])
-MicroBox(b, upm) == <<Micro(2 * b[1], upm), Micro(2 * b[2], upm), Micro(2 * b[3], upm), Micro(2 * b[4], upm)>>
 
 ChkFont(e) ==
   LET n   == e.n
       upm == e.upm
+      N   == e.fmN
+      D   == e.fmD
+      wj  == e.fm_known /\ e.fmN[2] * e.fmN[3] = 0 /\ (e.fkind = "ttf" => e.fmN[1] * e.upm = e.fmD)
       box == e.q_box
       ne  == NonEmptyIdx(box)
   IN IF ~(/\ n >= 1 /\ upm >= 1
           /\ Len(e.wq) = n /\ Len(e.wlo) = n /\ Len(e.whi) = n /\ Len(e.npts) = n
           /\ Len(e.on) = n /\ Len(e.onin) = n /\ Len(e.all) = n /\ Len(box) = n
+          /\ Len(e.fmN) = 6 /\ e.fmD >= 1 /\ Len(e.onpts) = n
           /\ Len(e.q_gwq) = n /\ Len(e.q_gwpdf) = n /\ Len(e.q_boxpdf) = n /\ Len(e.q_wmap) = n
           /\ e.wrote
           /\ Len(e.hhea) = HheaWords /\ AllWords(e.hhea) /\ AllWords(e.hm)
@@ -178,14 +181,24 @@ ChkFont(e) ==
       font_bbox     |-> ne # {} => e.q_fbox = UnionBox(box),
       \* advance widths in design units and in PDF units
       widths        |-> e.q_wq = e.wq /\ e.q_gwq = e.wq,
-      glyph_width_pdf |-> \A i \in 1..n : Near(e.q_gwpdf[i], MicroQ(e.wq[i], upm)),
-      widths_pdf    |-> Len(e.q_wpdf) = n /\ \A i \in 1..n : Near(e.q_wpdf[i], MicroQ(e.wq[i], upm)),
-      widths_map_pdf |-> e.has_wmap => \A i \in 1..n : Near(e.q_wmap[i], MicroQ(e.wq[i], upm)),
+      \* = horizontal scale of the font matrix times the width.  Judged when the matrix is known, when
+      \* it has no rotation part (N[2] N[3] = 0; otherwise the library's skew correction a - bc/d of
+      \* GlyphWidthPDF is not fixed by the property) and, for TrueType, when the matrix agrees with
+      \* unitsPerEm in x (TrueType advances are scaled by unitsPerEm, the matrix is not in the file)
+      glyph_width_pdf |-> wj => \A i \in 1..n : Near(e.q_gwpdf[i], WidthMicro(N, D, e.wq[i])),
+      widths_pdf    |-> Len(e.q_wpdf) = n /\ (wj => \A i \in 1..n : Near(e.q_wpdf[i], WidthMicro(N, D, e.wq[i]))),
+      widths_map_pdf |-> (wj /\ e.has_wmap) => \A i \in 1..n : Near(e.q_wmap[i], WidthMicro(N, D, e.wq[i])),
+      \* whatever the matrix: the two width queries agree with each other (1000 glyph space units = 1 text space unit)
+      widths_pdf_agree |-> (N[2] * N[3] = 0 /\ Len(e.q_wpdf) = n) => \A i \in 1..n : Near(e.q_wpdf[i], e.q_gwpdf[i]),
       \* glyph and font boxes in PDF units
       glyph_bbox_pdf |-> \A i \in 1..n :
                            /\ e.npts[i] = 0 => e.q_boxpdf[i] = Zero4
-                           /\ e.npts[i] > 0 => SandwichMicro(e.q_boxpdf[i], e.onin[i], e.all[i], upm)
-                           /\ (e.fkind = "ttf" /\ e.npts[i] # 0) => NearBox(e.q_boxpdf[i], MicroBox(box[i], upm)),
+                           /\ (e.fm_known /\ e.npts[i] > 0) =>
+                                SandwichPDF(e.q_boxpdf[i],
+                                            IF Sheared(N) /\ Len(e.onpts[i]) > 0 THEN ImgBoxOf(N, D, ToSet(e.onpts[i])) ELSE ImgBox(N, D, e.onin[i]),
+                                            ImgBox(N, D, e.all[i]))
+                           \* TrueType: the matrix applied to the glyph box of the font data
+                           /\ (e.fm_known /\ e.fkind = "ttf" /\ e.npts[i] # 0) => NearBox(e.q_boxpdf[i], ImgBox(N, D, box[i])),
       font_bbox_pdf |-> LET nz == {i \in 1..n : e.q_boxpdf[i] # Zero4} IN
                         nz # {} => NearBox(e.q_fboxpdf, UnionBox(e.q_boxpdf)),
       fixed_pitch   |-> FixedPitchOK(e.q_fixed, e.wq),
